@@ -90,25 +90,42 @@ structure FolderPlan where
   moves : List Move
   side : List Move := []                      -- side files the in-place route moves along (extract_*.json, run_matching.json)
 
-/-- observations.txt: rows `idx, [image, feature]*` regrouped by point index, labelled with the keypoints type, written
-  sorted by index (observations_to_file) -/
-def relabelObservations (ty : String) (lines : List String) : List String :=
+/-- the rows of the 1.0 observations file as (point index, [image, feature, image, feature, ...]): rows with fewer than two
+  fields after the index carry no observation (`if len(pairs) > 1`), a trailing unpaired field is dropped by `zip` -/
+def observationEntries (lines : List String) : List (Int × List String) :=
   let rows := (lines.filter (fun l => !(Csv.strip l.toList).isEmpty && !l.startsWith "#")).map
     (fun l => (Csv.parseLine l.toList).map String.ofList)
-  let entries : List (Int × List String) := rows.filterMap (fun r =>
+  rows.filterMap (fun r =>
     match r with
     | idx :: pairs =>
       match (Csv.readInt idx.toList) with
       | some i => if pairs.length > 1 then some (i, pairs.take (2 * (pairs.length / 2))) else none
       | none => none
     | [] => none)
-  let grouped : List (Int × List String) := entries.foldl (fun acc e =>
-    match Dict.get? e.1 acc with
-    | some ps => Dict.set e.1 (ps ++ e.2) acc
-    | none => Dict.set e.1 e.2 acc) []
-  let sorted := grouped.toArray.qsort (fun a b => a.1 < b.1) |>.toList
+
+/-- `observations.add(point, type, image, feature)` row after row: the pairs of a point accumulate in file order -/
+def groupStep (acc : List (Int × List String)) (e : Int × List String) : List (Int × List String) :=
+  match Dict.get? e.1 acc with
+  | some ps => Dict.set e.1 (ps ++ e.2) acc
+  | none => Dict.set e.1 e.2 acc
+
+def groupEntries (entries : List (Int × List String)) : List (Int × List String) := entries.foldl groupStep []
+
+def insertGroup (g : Int × List String) : List (Int × List String) → List (Int × List String)
+  | [] => [g]
+  | h :: t => if g.1 ≤ h.1 then g :: h :: t else h :: insertGroup g t
+
+/-- observations_to_file writes the points sorted by index -/
+def sortGroups (l : List (Int × List String)) : List (Int × List String) := l.foldr insertGroup []
+
+def renderGroup (ty : String) (g : Int × List String) : String :=
+  ", ".intercalate ((String.ofList (Csv.showInt g.1)) :: ty :: g.2)
+
+/-- observations.txt: rows `idx, [image, feature]*` regrouped by point index, labelled with the keypoints type, written
+  sorted by index (observations_to_file) -/
+def relabelObservations (ty : String) (lines : List String) : List String :=
   [Gen.Headers.formatLine, "# point3d_id, keypoints_type, [image_path, feature_id]*"] ++
-    sorted.map (fun g => ", ".intercalate ((String.ofList (Csv.showInt g.1)) :: ty :: g.2))
+    (sortGroups (groupEntries (observationEntries lines))).map (renderGroup ty)
 
 inductive Err where
   | assertion (what : String)
